@@ -7,6 +7,7 @@ import (
 
 	"github.com/zerx-lab/wordZero/pkg/document"
 	"github.com/yuin/goldmark/ast"
+	"github.com/yuin/goldmark/util"
 
 	// 添加goldmark扩展的AST节点支持
 	extast "github.com/yuin/goldmark/extension/ast"
@@ -188,7 +189,7 @@ func (r *WordRenderer) renderInlineContentWithFormat(node ast.Node, para *docume
 	for child := node.FirstChild(); child != nil; child = child.NextSibling() {
 		switch n := child.(type) {
 		case *ast.Text:
-			text := string(n.Segment.Value(r.source))
+			text := r.textOf(n)
 			para.AddFormattedText(text, format)
 
 			// 处理软换行（单个\n）
@@ -355,8 +356,8 @@ func (r *WordRenderer) extractCodeBlockLines(node ast.Node) []string {
 
 	for i := 0; i < node.Lines().Len(); i++ {
 		line := node.Lines().At(i)
-		lineText := string(line.Value(r.source))
-		// 保持原始格式，包括空格和制表符
+		// 保持原始格式，包括空格和制表符；行尾的换行符不属于这一行的内容
+		lineText := strings.TrimRight(string(line.Value(r.source)), "\r\n")
 		lines = append(lines, lineText)
 	}
 
@@ -445,6 +446,19 @@ func (r *WordRenderer) renderImageInline(node *ast.Image, para *document.Paragra
 	}
 }
 
+// textOf 返回文本节点的可见文本：源文本中的反斜杠转义（\* \_ \# ...）和字符实体（&amp; &#35; ...）
+// 还原成它们表示的字符；代码中的原始文本保持不变
+func (r *WordRenderer) textOf(n *ast.Text) string {
+	value := n.Segment.Value(r.source)
+	if n.IsRaw() {
+		return string(value)
+	}
+	value = util.UnescapePunctuations(value)
+	value = util.ResolveNumericReferences(value)
+	value = util.ResolveEntityNames(value)
+	return string(value)
+}
+
 // extractTextContent 提取节点的文本内容
 func (r *WordRenderer) extractTextContent(node ast.Node) string {
 	var buf strings.Builder
@@ -457,7 +471,7 @@ func (r *WordRenderer) extractTextContentRecursive(node ast.Node, buf *strings.B
 	for child := node.FirstChild(); child != nil; child = child.NextSibling() {
 		switch n := child.(type) {
 		case *ast.Text:
-			buf.Write(n.Segment.Value(r.source))
+			buf.WriteString(r.textOf(n))
 		case *ast.AutoLink:
 			buf.Write(n.Label(r.source))
 		default:
